@@ -8,6 +8,7 @@ import (
 	"fmt"
 	"net"
 	"net/http"
+	"reflect"
 	"sort"
 	"strings"
 	"sync"
@@ -206,6 +207,7 @@ type Tok struct {
 	GapNs            int64  // sub: producer pause between values
 	InvokeT, ReturnT time.Duration
 	Gate             chan struct{} // if set, the handler blocks on it (released by the scenario)
+	IgnoreCtx        bool          // sub: the producer keeps sending after its context is cancelled
 
 	mu        sync.Mutex
 	Execs     int
@@ -280,6 +282,7 @@ type ServerOpts struct {
 	PingInterval time.Duration // 0 = library default; <0 = disabled
 	MaxReq       int64
 	Reverse      bool
+	Tracer       bool
 	Extra        []jsonrpc.ServerOption
 	Mux          func(mux *http.ServeMux)
 }
@@ -296,6 +299,11 @@ func (e *Env) NewServer(addr string, o ServerOpts) *Server {
 	}
 	if o.Reverse {
 		opts = append(opts, jsonrpc.WithReverseClient[RevClient]("R"))
+	}
+	if o.Tracer {
+		opts = append(opts, jsonrpc.WithTracer(func(method string, params []reflect.Value, results []reflect.Value, err error) {
+			e.Probe("tracer-calls")
+		}))
 	}
 	opts = append(opts, o.Extra...)
 	rpc := jsonrpc.NewServer(opts...)
